@@ -262,10 +262,9 @@ class Gen:
             sub = dict(base, sel=[(e, n) for e, n, _ in sel], dist=plain and r.random() < 0.25)
             if r.random() < 0.4:
                 sub["where"] = self.bool_expr(iscope, None, 1)
-            if r.random() < 0.3:
-                # an ORDER BY inside the derived table does not change its rows, but the optimizer may rely on it
-                # (sort aggregation, merge join, useless-order above)
-                sub["ord"] = [(0, r.choice(["asc", "asc", "desc"]))] + ([(1, "asc")] if r.random() < 0.3 else [])
+            # (no ORDER BY inside generated derived tables: below a join + aggregation the sort keys that nothing else
+            # uses are pruned away under the Order node -- recorded finding F34; ordered derived tables are covered by
+            # the directed families of lib/planfam.py and of C12, where every column is used)
         cols = [(n, ty) for _, n, ty in sel]
         return ("sub", sub, a, cols), [(a, n, ty) for n, ty in cols]
 
